@@ -11,7 +11,7 @@ import (
 
 func init() {
 	register(&propCheck{id: "C18", needRoot: true, run: checkC18,
-		explanation: "Decided statically: (1) SIB — every implementation in package db of a KVStore/Batch method that takes a key (Get, Has, Set, Delete and their Sync variants, Iterator, ReverseIterator) rejects an empty key with an error before touching its store, and every Set rejects a nil value — locally, or by delegating the unmodified argument to a sibling that does; all siblings agree; (2) FLOW — every key PrefixDB and its batch hand to the wrapped store is prefix ‖ key (or the incremented prefix as an end bound), and every key its iterator yields was stripped of exactly len(prefix) bytes after a prefix test; (3) TYPESTATE — a written batch closes itself on every success path of Write/WriteSync, and Set/Delete/Write test the closed state first; (4) LOCK — MemDB's mutex is paired on all paths, and the read lock taken for an iterator is released by the iterator goroutine on every exit under the same condition it was taken. Added in the build round: end-bound increment with carry (TABLE-prefix-increment); iterator adapter positioning / cut-off tables for all bounds / direction / ordering combinations (TABLE-backend-iterators); FRESH-prefix-buffer — keys handed to the wrapped store are never built by appending to a shared prefix slice. NOT decided: iterator range/order results for arbitrary bounds, atomicity of LevelDB's batch, reverse-range emulation."})
+		explanation: "Decided statically: (1) SIB — every implementation in package db of a KVStore/Batch method that takes a key (Get, Has, Set, Delete and their Sync variants, Iterator, ReverseIterator) rejects an empty key with an error before touching its store, and every Set rejects a nil value — locally, or by delegating the unmodified argument to a sibling that does; all siblings agree; (2) FLOW — every key PrefixDB and its batch hand to the wrapped store is prefix ‖ key (or the incremented prefix as an end bound), and every key its iterator yields was stripped of exactly len(prefix) bytes after a prefix test; (3) TYPESTATE — a written batch closes itself on every success path of Write/WriteSync, and Set/Delete/Write test the closed state first; (4) LOCK — MemDB's mutex is paired on all paths, and the read lock taken for an iterator is released by the iterator goroutine on every exit under the same condition it was taken. Added in the build round: end-bound increment with carry (TABLE-prefix-increment); iterator adapter positioning / cut-off tables for all bounds / direction / ordering combinations (TABLE-backend-iterators); FRESH-prefix-buffer — keys handed to the wrapped store are never built by appending to a shared prefix slice. NOT decided: iterator range/order results for arbitrary bounds, atomicity of LevelDB's batch, reverse-range emulation. Rules added in the later seeding rounds (each listed with what it decides in this file's rule table) are described in DESIGN.md §3 \"Third and fourth seeding rounds\" and Appendix C3–C5."})
 }
 
 func lenZeroGuard(fn *ssa.Function, pname string) []guard {
